@@ -20,7 +20,8 @@ def run(job):
     table = json.load(open(os.path.join(here, "spec", "si_units.json"),
                            encoding="utf-8"))
     quick = job.tier != "thorough"
-    amounts = [Decimal("2.5"), Fraction(-7, 3), 1]
+    amounts = [Decimal("2.5"), Fraction(-7, 3), 1, Fraction(1, 3),
+               Decimal("0.0003")]
     n = 0
     job.bound = "all 113 predefined units, all ordered pairs per type, 20 " \
                 "prefixes, all documentation rows (exhaustive)"
@@ -30,6 +31,13 @@ def run(job):
         cls = getattr(P, cname)
         syms = list(entry["units"])
         if job.shard == 0:
+            # only the types the table names are quantized (DataVolume: 1/8 B)
+            q_exp = table.get("quantum", {}).get(cname)
+            q_got = cls.quantum
+            job.case("type/quantum", cname,
+                     (q_got is None) if q_exp is None else
+                     (q_got is not None and O.F(q_got) == Fraction(q_exp)),
+                     repr(q_got), repr(q_exp))
             job.case("type/units-listed", cname,
                      sorted(u.symbol for u in cls.units()) == sorted(syms),
                      sorted(u.symbol for u in cls.units()), sorted(syms))
